@@ -25,4 +25,20 @@ def run(check):
     check.run_rule('C04.R4b', lambda c: rule_chain_order(c, 'C04.R4'))
     check.run_rule('C04.R5', lambda c: rule_wrapper_hygiene(c, 'C04.R5'))
     # bound use of an emulating declaration: the re-bound wrapper keeps the declared forger
+    # forwards() is embed(outer, mask(inner, ...)): the structural soundness clauses of the two operations it is composed of
+    # are necessary conditions of "every call accepted by the declared signature executes" (shared with C02 / C03)
+    from ._shared import Models
+    from ..rules_embed import rule_embed_buckets, rule_embed_dupes, rule_embed_flags
+    from ..rules_mask import rule_mask_names, rule_mask_consume, rule_mask_hide
+    M = Models(check)
+    check.run_rule('C04.R6', lambda c: rule_embed_buckets(c, M.embed(), {'kinds': 'C04.R6', 'clear_must': 'C04.R6', 'clear_only': None, 'order': None}))
+    check.run_rule('C04.R6b', lambda c: rule_embed_dupes(c, M.embed(), 'C04.R6'))
+    check.run_rule('C04.R6c', lambda c: rule_embed_flags(c, M.embed(), 'C04.R6'))
+    check.run_rule('C04.R7', lambda c: rule_mask_names(c, M.mask(), {'table': 'C04.R7', 'index': 'C04.R7', 'kinds': 'C04.R7', 'src': None, 'pdefault': None}))
+    check.run_rule('C04.R7b', lambda c: rule_mask_consume(c, M.mask(), 'C04.R7'))
+    check.run_rule('C04.R7c', lambda c: rule_mask_hide(c, M.mask(), 'C04.R7', None))
+    # emulate=True: inspect.signature goes through the as_forged descriptor, whose re-entrancy guard must be released on
+    # every exit or later retrievals silently report the undeclared signature (shared with C13.R6 / C16.R4)
+    from ..rules_windows import rule_recursion_guard_emptied
+    check.run_rule('C04.R5b', lambda c: rule_recursion_guard_emptied(c, 'C04.R5'))
     check.run_rule('C04.R4c', lambda c: rule_descriptor_rebinding(c, 'C04.R4', classes=['specifiers:_ForgerWrapper']))
